@@ -1,5 +1,6 @@
 """C13 reactive Variable/Event/Set subscriptions: interleaving model (coq/C13_Reactive) + correspondence
-(sequential scripts vs model run; free-running racing goroutines judged by the model's log predicates). DESIGN.md §7.13."""
+(sequential scripts vs model run; free-running racing goroutines judged by the model's log predicates; API family: every
+exported mutator / subscription variant as a program of the model, harness/cmd/c13/api.go). DESIGN.md §7.13."""
 from . import lib
 
 LEVEL = "proof"
@@ -15,17 +16,19 @@ def run(ctx):
         "finite sets of elements are modelled as bit masks (element i = bit i); Variable values as N",
         "storm runs (tight writers against subscribe/unsubscribe loops) are judged by the Go-side oracle only",
         "free-running runs: the global change order is recorded inside the compute function (Variable, under the value mutex) / taken from a permanent first subscriber and cross-checked with the writers' return values (Set)",
+        "API family (Api.v): Init, ToggleValue (+reset), DefaultTo, InheritFrom are the model's writer with the function the code hands to Compute; OnUpdateOnce / OnUpdateWithContext / WithValue / WithNonEmptyValue / LogUpdates / WithElements are Subscribe/Unsub programs whose user-visible callbacks are a function of the underlying log (observe / sobserve in Corr.v); free-running API runs record the change order inside the transformation function (it runs under the value mutex on every write path)",
     ])
     if thorough:
         for k in range(5):
             ctx.seed += 1000
-            ctx.corr(hx, ["all", "--nseq", "600", "--nfree", "1500", "--nstorm", "30", "--len", "36"], cases_name="cases%d.v" % k)
+            ctx.corr(hx, ["all", "--nseq", "600", "--nfree", "1500", "--nstorm", "30", "--len", "36", "--napi", "600", "--nfreeapi", "900"], cases_name="cases%d.v" % k)
         ctx.seed -= 5000
     else:
-        ctx.corr(hx, ["all", "--nseq", "300", "--nfree", "400", "--nstorm", "8"])
+        ctx.corr(hx, ["all", "--nseq", "300", "--nfree", "400", "--nstorm", "8", "--napi", "200", "--nfreeapi", "150"])
     ctx.assumptions += [
         "guard: a callback does not synchronously call its own unsubscribe, nor a write method of the object it is subscribed to (self-deadlock on the execution / update-order mutex by construction; OnUpdateOnce uses `go unsubscribe()` for that reason)",
         "an unsubscribe closure is only called after the OnUpdate call that produced it has returned",
+        "guard (finding reactive-set-decode-silent, C13_refuted_set_decode_live): Set.Decode is only called on a set nobody has subscribed to; on a live set it changes the contents without notifying (directed harness case, reported as KNOWN-FINDING)",
         "Go mutexes are modelled as fair-agnostic: the theorems hold for every schedule, no liveness claim is made",
     ]
 
